@@ -11,11 +11,11 @@ LEVEL = 'exploration'
 TIERS = {'quick': 4000, 'thorough': 150000}
 RULE = ('seeded pushes of a real file, a BytesIO or a real directory (1-5 regular files, process cwd elsewhere with same-named decoys, listdir order '
         'from the scenario) with sizes biased to 0, 1, chunk+-1, maxdata+-k, exact send-buffer fits and multiples of the chunk size, maxdata 4 KiB..1 MiB, '
-        'device paths up to 1024 bytes, mode/mtime values (0 => now), progress callback absent / counting / raising, sync and async; the device\'s '
+        'device paths up to 1024 bytes, mode/mtime values (0 => now), progress callback absent / counting / raising / re-entering the device with a stat() (sync), sync and async; the device\'s '
         'sync service decodes the stream. Cases with a callback are run again without it and the host packet logs compared. '
         'non-trivial = >= 2 host WRTEs on a sync stream or a directory push; distinct = event-log digests')
 ASSUMPTIONS = ['local filesystem is a real temp dir per process; content is fully generated']
-EXPECT_PROBES = {'all': ['c07_dir_push', 'c07_exact_fit', 'c07_callback', 'c07_multi_wrte', 'c07_file_source']}
+EXPECT_PROBES = {'all': ['c07_dir_push', 'c07_exact_fit', 'c07_callback', 'c07_multi_wrte', 'c07_file_source', 'c07_reentrant_callback']}
 OWN = ('push-duplicate', 'push-missing', 'push-incomplete', 'push-content', 'push-mode', 'push-mtime', 'push-chunk', 'push-early-return', 'push-extra',
        'callback-count', 'callback-total', 'wrte-over-maxdata', 'cb-changes-wire', 'unexpected-exception', 'timeout-instead-of-result', 'hang', 'no-termination',
        'wrong-exception', 'missing-exception')
@@ -75,10 +75,25 @@ def generate(seed, tier):
             d['cmds']['mkdir ' + path] = {'content': {'size': 0}, 'cuts': []}
         else:
             op['content'] = {'seed': g.int(0, 1 << 30), 'size': _size(g, d['maxdata'], len(path.encode()), op.get('mode', 33272), big), 'alpha': g.pick(['bin', 'bin', 'ff', 'zero'])}
+        if kind != 'dir' and g.chance(0.15):
+            op['cb'] = 'reenter'
+            op['reenter_path'] = '/sdcard/reenter'
+            d['fs']['/sdcard/reenter'] = {'mode': 0o100644, 'mtime': 5, 'content': {'seed': 1, 'size': 10, 'alpha': 'bin'}, 'records': [100]}
         ops.append(S.timeouts(g, op))
     cfg = S.gen_config(g, 2000)
     scn = {'api': g.pick(['sync', 'async']), 'transport': 'mem', 'device': d, 'config': cfg, 'actors': [[S.timeouts(g, {'op': 'connect'})] + ops], 'object': {'banner': 'simhost'}}
     return {'seed': seed, 'scn': scn}
+
+
+def _push_wire(run):
+    """Per push stream: the host packets sent on it, ids removed (a re-entrant callback legitimately uses other ids)."""
+    dev = run.device
+    out = []
+    for att in dev.push_attempts:
+        s = dev.all_streams[att['stream']]
+        # OKAYs answer the device's own packetisation of its reply, which may differ between the two runs; what is *sent* is OPEN / WRTE / CLSE
+        out.append([(p[1], p[4], p[5]) for p in dev.host_pkts if p[0] == s.session and p[2] == s.local and p[1] in ('OPEN', 'WRTE', 'CLSE')])
+    return out
 
 
 def evaluate(case, tapes=None):
@@ -99,6 +114,8 @@ def evaluate(case, tapes=None):
         pr['c07_file_source'] = 1
     if has_cb:
         pr['c07_callback'] = 1
+    if any(op.get('cb') == 'reenter' for op in ops) and scn['api'] == 'sync':
+        pr['c07_reentrant_callback'] = 1
     multi = any(len(s.recv_payloads) >= 2 for s in run.device.all_streams)
     if multi:
         pr['c07_multi_wrte'] = 1
@@ -109,12 +126,24 @@ def evaluate(case, tapes=None):
         s2 = copy.deepcopy(scn)
         for op in s2['actors'][0]:
             op.pop('cb', None)
+            if op['op'] == 'push' and not op.get('mtime'):
+                op['mtime'] = 77      # mtime 0 means "now", which legitimately differs between two runs
         c2 = dict(case)
         c2['scn_nocb'] = s2
         run2, tape2 = run_scn(c2, 'scn_nocb', 1, tapes, seed_idx=0)
         absorb(out, run2, tape2)
-        if run2.device.host_pkts != run.device.host_pkts:
-            probs.append(O.P('cb-changes-wire', 'host packet log differs with and without the progress callback (%d vs %d packets)' % (len(run.device.host_pkts), len(run2.device.host_pkts))))
+        run1 = run
+        if any(op['op'] == 'push' and not op.get('mtime') for op in ops):
+            s1 = copy.deepcopy(scn)
+            for op in s1['actors'][0]:
+                if op['op'] == 'push' and not op.get('mtime'):
+                    op['mtime'] = 77
+            c2['scn_cb77'] = s1
+            run1, tape1 = run_scn(c2, 'scn_cb77', 2, tapes, seed_idx=0)
+            absorb(out, run1, tape1)
+        a, b = _push_wire(run1), _push_wire(run2)
+        if a != b:
+            probs.append(O.P('cb-changes-wire', 'what is sent on the push stream(s) differs with and without the progress callback (%d vs %d packets)' % (sum(map(len, a)), sum(map(len, b)))))
     out['violations'] = [p for p in probs if p[0] in OWN]
     out['nontrivial'] = multi or pr.get('c07_dir_push', 0) > 0
     out['digest'] = run.digest()
